@@ -45,9 +45,9 @@ func init() {
 			}
 			return 4
 		},
-		Rule: "each case = 1000 random 21-byte addresses (String/SetStringStrict/Bytes/SetBytes/RLP/JSON round trips) + 1000 candidate strings derived from canonical strings by one mutation class (upper/mixed case, 0x/no prefix, length ±1, whitespace, non-hex, unicode look-alike, wrong prefix, embedded newline) or random; strict parser must accept iff the harness regexp \\A(hx|cx)[0-9a-f]{40}\\z matches; jsonrpc validators must agree. Non-trivial = distinct candidate string that is NOT canonical (reject side) or distinct address (accept side).",
+		Rule: "each case = 1000 random 21-byte addresses (String/SetStringStrict/Bytes/SetBytes/RLP/JSON round trips, every decoder also into receivers that held an account or contract address before) + 1000 candidate strings derived from canonical strings by one mutation class (upper/mixed case, 0x/no prefix, length ±1, whitespace, non-hex, unicode look-alike, wrong prefix, embedded newline) or random; strict parser must accept iff the harness regexp \\A(hx|cx)[0-9a-f]{40}\\z matches; jsonrpc validators must agree. Non-trivial = distinct candidate string that is NOT canonical (reject side) or distinct address (accept side).",
 		MinNonTrivial: func(t string) int { return 10000 },
-		Required:      []string{"strict_accept", "strict_reject", "setbytes_reject", "rpc_checked"},
+		Required:      []string{"strict_accept", "strict_reject", "setbytes_reject", "rpc_checked", "reused_receiver_checks"},
 		Assumptions:   []string{"Go regexp and encoding/hex are the reference for 'canonical'"},
 		Run:           run,
 	})
@@ -175,10 +175,47 @@ func run(c *ev.Ctx) {
 			if jb, err := a.MarshalJSON(); err != nil || string(jb) != `"`+s+`"` {
 				c.Violation("json.marshal", map[string]string{"string": s, "json": string(jb)})
 			}
-			// 20-byte form means EOA
+			// 20-byte form means EOA, also on a receiver that held another address before
 			var a4 common.Address
 			if err := a4.SetBytes(raw[1:]); err != nil || a4[0] != 0 || !bytes.Equal(a4[1:], raw[1:]) {
 				c.Violation("setbytes.20", hex.EncodeToString(raw[:]))
+			}
+			// every decoder must give the same address whatever the receiver held before
+			for _, prevType := range []byte{0, 1} {
+				var d common.Address
+				r.Read(d[:])
+				d[0] = prevType
+				want20 := raw
+				want20[0] = 0
+				if err := d.SetBytes(raw[1:]); err != nil || d != common.Address(want20) {
+					c.Violation("setbytes.20.reused-receiver", map[string]string{"id": hex.EncodeToString(raw[1:]), "receiver_held_type": fmt.Sprint(prevType), "got": hex.EncodeToString(d[:])})
+				}
+				r.Read(d[:])
+				d[0] = prevType
+				if err := d.SetBytes(raw[:]); err != nil || d != a {
+					c.Violation("setbytes.21.reused-receiver", map[string]string{"bytes": hex.EncodeToString(raw[:]), "got": hex.EncodeToString(d[:])})
+				}
+				r.Read(d[:])
+				d[0] = prevType
+				if err := d.SetString(s); err != nil || d != a {
+					c.Violation("setstring.reused-receiver", map[string]string{"string": s, "got": hex.EncodeToString(d[:])})
+				}
+				r.Read(d[:])
+				d[0] = prevType
+				if eb, err := codec.BC.MarshalToBytes(&a); err == nil {
+					if _, err := codec.BC.UnmarshalFromBytes(eb, &d); err != nil || d != a {
+						c.Violation("rlp.reused-receiver", map[string]string{"bytes": hex.EncodeToString(raw[:]), "got": hex.EncodeToString(d[:])})
+					}
+				}
+				// the 20-byte form through the codec (as written by older encoders)
+				if eb, err := codec.BC.MarshalToBytes(raw[1:]); err == nil {
+					r.Read(d[:])
+					d[0] = prevType
+					if _, err := codec.BC.UnmarshalFromBytes(eb, &d); err != nil || d != common.Address(want20) {
+						c.Violation("rlp.20.reused-receiver", map[string]string{"id": hex.EncodeToString(raw[1:]), "got": hex.EncodeToString(d[:])})
+					}
+				}
+				c.Count("reused_receiver_checks", 5)
 			}
 			c.NonTrivial("A" + s)
 			if k == 0 && c.WantSample() {
